@@ -358,4 +358,118 @@ theorem foldl_push_spec (depth : Nat) : ∀ (ls pre : List α) (s : Inc α),
     have := ih (pre ++ [x]) (Inc.push H s x) (push_spec H z0 x (br := s.branch) (n := s.count) inv h1) (by simpa using hlen)
     simpa using this
 
+/-! ### Merkle proofs taken from the tree verify (`is_valid_merkle_branch`) -/
+
+/-- the Merkle proof of leaf `i` in the depth-`d` tree over `l`: the siblings along its path, bottom-up -/
+def proofOf : Nat → List α → Nat → List α
+  | 0, _, _ => []
+  | d + 1, l, i =>
+    if i < 2 ^ d then proofOf d (l.take (2 ^ d)) i ++ [treeRoot H z0 d (l.drop (2 ^ d))]
+    else proofOf d (l.drop (2 ^ d)) (i - 2 ^ d) ++ [treeRoot H z0 d (l.take (2 ^ d))]
+
+theorem proofOf_length : ∀ (d : Nat) (l : List α) (i : Nat), (proofOf H z0 d l i).length = d := by
+  intro d
+  induction d with
+  | zero => intro l i; rfl
+  | succ d ih => intro l i; simp only [proofOf]; split <;> simp [ih]
+
+/-- the loop of `is_valid_merkle_branch` over the first `d` levels -/
+def pathFold (branch : List α) (index : Nat) (leaf : α) (d : Nat) : α :=
+  (List.range d).foldl (fun value k =>
+    let sib := branch.getD k value
+    if index / 2 ^ k % 2 = 1 then H sib value else H value sib) leaf
+
+theorem foldl_range_congr {β : Type} (f g : β → Nat → β) : ∀ (d : Nat) (a : β),
+    (∀ k, k < d → ∀ b, f b k = g b k) → (List.range d).foldl f a = (List.range d).foldl g a := by
+  intro d
+  induction d with
+  | zero => intro a _; rfl
+  | succ d ih =>
+    intro a h
+    rw [List.range_succ, List.foldl_append, List.foldl_append, ih a (fun k hk b => h k (by omega) b)]
+    simp [h d (by omega)]
+
+theorem pathFold_succ (branch : List α) (index : Nat) (leaf : α) (d : Nat) :
+    pathFold H branch index leaf (d + 1) =
+      (let value := pathFold H branch index leaf d
+       let sib := branch.getD d value
+       if index / 2 ^ d % 2 = 1 then H sib value else H value sib) := by
+  unfold pathFold
+  rw [List.range_succ, List.foldl_append]
+  rfl
+
+/-- only the first `d` entries of the branch and the low `d` bits of the index matter for `d` levels -/
+theorem pathFold_congr (b1 b2 : List α) (i1 i2 : Nat) (leaf : α) (d : Nat)
+    (hb : ∀ k, k < d → ∀ v, b1.getD k v = b2.getD k v) (hi : ∀ k, k < d → i1 / 2 ^ k % 2 = i2 / 2 ^ k % 2) :
+    pathFold H b1 i1 leaf d = pathFold H b2 i2 leaf d := by
+  unfold pathFold
+  apply foldl_range_congr
+  intro k hk v
+  simp only [hb k hk, hi k hk]
+
+theorem bits_sub_pow (i d k : Nat) (hk : k < d) (hi : 2 ^ d ≤ i) : (i - 2 ^ d) / 2 ^ k % 2 = i / 2 ^ k % 2 := by
+  obtain ⟨e, rfl⟩ : ∃ e, d = k + 1 + e := ⟨d - k - 1, by omega⟩
+  have hp : 0 < 2 ^ k := Nat.pow_pos (by decide)
+  have h2 : 2 ^ (k + 1 + e) = 2 ^ k * (2 * 2 ^ e) := by rw [Nat.pow_add, Nat.pow_succ]; ring
+  obtain ⟨j, rfl⟩ : ∃ j, i = j + 2 ^ (k + 1 + e) := ⟨i - 2 ^ (k + 1 + e), by omega⟩
+  rw [Nat.add_sub_cancel, h2, Nat.add_mul_div_left _ _ hp]
+  omega
+
+/-- **A Merkle proof taken from the tree verifies against the tree's root.** -/
+theorem pathFold_proofOf : ∀ (d : Nat) (l : List α) (i : Nat), i < 2 ^ d →
+    pathFold H (proofOf H z0 d l i) i (l.getD i z0) d = treeRoot H z0 d l := by
+  intro d
+  induction d with
+  | zero =>
+    intro l i hi
+    have : i = 0 := by simpa using hi
+    subst this
+    cases l <;> simp [pathFold, treeRoot, List.getD]
+  | succ d ih =>
+    intro l i hi
+    have hp : 0 < 2 ^ d := Nat.pow_pos (by decide)
+    rw [pathFold_succ]
+    simp only [proofOf, treeRoot]
+    by_cases hlt : i < 2 ^ d
+    · simp only [if_pos hlt]
+      have hlen := proofOf_length H z0 d (l.take (2 ^ d)) i
+      have hinner : pathFold H (proofOf H z0 d (l.take (2 ^ d)) i ++ [treeRoot H z0 d (l.drop (2 ^ d))]) i (l.getD i z0) d =
+          treeRoot H z0 d (l.take (2 ^ d)) := by
+        rw [pathFold_congr H _ (proofOf H z0 d (l.take (2 ^ d)) i) i i _ d
+          (fun k hk v => by simp [List.getD, List.getElem?_append_left (by omega : k < (proofOf H z0 d (l.take (2 ^ d)) i).length)])
+          (fun _ _ => rfl)]
+        have hleaf : l.getD i z0 = (l.take (2 ^ d)).getD i z0 := by
+          simp [List.getD, hlt]
+        rw [hleaf]
+        exact ih _ _ hlt
+      rw [hinner]
+      have hsib : (proofOf H z0 d (l.take (2 ^ d)) i ++ [treeRoot H z0 d (l.drop (2 ^ d))]).getD d (treeRoot H z0 d (l.take (2 ^ d))) =
+          treeRoot H z0 d (l.drop (2 ^ d)) := by
+        simp [List.getD, hlen]
+      have hbit : i / 2 ^ d % 2 ≠ 1 := by rw [Nat.div_eq_of_lt hlt]; decide
+      simp only [hsib, if_neg hbit]
+    · simp only [if_neg hlt]
+      have hge : 2 ^ d ≤ i := by omega
+      have hi' : i - 2 ^ d < 2 ^ d := by rw [Nat.pow_succ] at hi; omega
+      have hlen := proofOf_length H z0 d (l.drop (2 ^ d)) (i - 2 ^ d)
+      have hinner : pathFold H (proofOf H z0 d (l.drop (2 ^ d)) (i - 2 ^ d) ++ [treeRoot H z0 d (l.take (2 ^ d))]) i (l.getD i z0) d =
+          treeRoot H z0 d (l.drop (2 ^ d)) := by
+        rw [pathFold_congr H _ (proofOf H z0 d (l.drop (2 ^ d)) (i - 2 ^ d)) i (i - 2 ^ d) _ d
+          (fun k hk v => by simp [List.getD, List.getElem?_append_left (by omega : k < (proofOf H z0 d (l.drop (2 ^ d)) (i - 2 ^ d)).length)])
+          (fun k hk => (bits_sub_pow i d k hk hge).symm)]
+        have hleaf : l.getD i z0 = (l.drop (2 ^ d)).getD (i - 2 ^ d) z0 := by
+          simp only [List.getD, List.getElem?_drop]
+          congr 2; omega
+        rw [hleaf]
+        exact ih _ _ hi'
+      rw [hinner]
+      have hsib : (proofOf H z0 d (l.drop (2 ^ d)) (i - 2 ^ d) ++ [treeRoot H z0 d (l.take (2 ^ d))]).getD d (treeRoot H z0 d (l.drop (2 ^ d))) =
+          treeRoot H z0 d (l.take (2 ^ d)) := by
+        simp [List.getD, hlen]
+      have hbit : i / 2 ^ d % 2 = 1 := by
+        have : i / 2 ^ d = 1 := by
+          apply Nat.div_eq_of_lt_le <;> (rw [Nat.pow_succ] at hi; omega)
+        rw [this]
+      simp only [hsib, if_pos hbit]
+
 end Zrnt.Proofs.DepositTree
